@@ -301,6 +301,20 @@ def subsequence_filter(prog, b, source_param, pred_ok):
     return False, 'neither a single guarded push nor a single iterator filter (pushes=%d, filters=%d)' % (len(pushes), len(filters))
 
 
+def differs_guard(g, truth):
+    """(a, b) when the edge taken with `truth` means a != b: `a != b` on its true edge or `a == b` on its false edge
+    (operator form); None otherwise.  equals_guard is the converse."""
+    g = strip(g)
+    if isinstance(g, tuple) and g[0] == 'bin' and g[1] in ('Eq', 'Ne') and truth in (True, False):
+        if (g[1] == 'Ne') == truth:
+            return g[2], g[3]
+    return None
+
+
+def equals_guard(g, truth):
+    return differs_guard(g, (not truth) if truth in (True, False) else truth)
+
+
 def as_bound(g, truth):
     """Canonical form of a comparison known to hold/fail on an edge: ('le'|'lt', a, b) meaning a <= b / a < b, or None."""
     g = strip(g)
@@ -531,3 +545,130 @@ def stores_between(b, call_bi, call_term, local, use_bi):
         if nxt is not None and b.reaches(nxt, i, avoid=(call_bi,)) and b.reaches(i, use_bi, avoid=(call_bi,)):
             bad.append(b.where(i, j))
     return sorted(set(bad))
+
+
+# ---------------------------------------------------------------- length of a Vec local along the paths after a test of it
+_GROW_BY_ONE = ('Vec::push',)
+_LEN_CALLS = ('Vec::len', 'slice::len')
+
+
+def _ref_root(b, operand):
+    """local L when the operand is (a temp holding) `&L` / `&mut L` / `move L`, else None."""
+    if operand.get('k') not in ('copy', 'move'):
+        return None
+    pl = operand['place']
+    if pl['proj']:
+        return pl['local'] if pl['proj'] == [{'k': 'deref'}] else None
+    loc = pl['local']
+    for d in b.defs().get(loc, []):
+        if d[0] == 'st' and d[3]['rv'].get('k') == 'ref':
+            p = d[3]['rv']['place']
+            if not p['proj']:
+                return p['local']
+            if p['proj'] == [{'k': 'deref'}]:
+                return _ref_root(b, {'k': 'copy', 'place': {'local': p['local'], 'proj': []}})
+        if d[0] == 'st' and d[3]['rv'].get('k') == 'use' and d[3]['rv']['op'].get('k') in ('copy', 'move') and not d[3]['rv']['op']['place']['proj'] \
+                and len(b.defs().get(loc, [])) == 1:
+            return _ref_root(b, d[3]['rv']['op'])
+    return loc
+
+
+def len_switches(b, vec):
+    """[(switch block, {key: target})] for switches on `vec.len()` (a match on the length) and for tests `vec.len() == n` /
+    `!= n` (given as {n: target-when-equal, 'otherwise': target-when-different})."""
+    out = []
+    for sw, blk in enumerate(b.blocks):
+        t = blk['term']
+        if t['k'] != 'switch':
+            continue
+        g = strip(b.switch_atom(sw))
+        if isinstance(g, tuple) and g[0] == 'call' and mir.cname(g[1]) in _LEN_CALLS and _is_len_call_on(b, sw, vec):
+            edges = {int(v): tg for v, tg in t['targets']}
+            edges['otherwise'] = t.get('otherwise')
+            out.append((sw, edges))
+        elif isinstance(g, tuple) and g[0] == 'bin' and g[1] in ('Eq', 'Ne') and isinstance(const_val(g[3]), int) and \
+                isinstance(strip(g[2]), tuple) and strip(g[2])[0] == 'call' and mir.cname(strip(g[2])[1]) in _LEN_CALLS and _len_feeds(b, sw, vec):
+            tv = {}
+            for key, tg in b.switch_edges(sw):
+                tv[key] = tg
+            t_true = tv.get(1, tv.get('otherwise')) if 1 in tv or 0 in tv else None
+            t_false = tv.get(0)
+            if t_true is None or t_false is None:
+                continue
+            n = const_val(g[3])
+            out.append((sw, {n: t_true, 'otherwise': t_false} if g[1] == 'Eq' else {n: t_false, 'otherwise': t_true}))
+    return out
+
+
+def _len_call_blocks(b, vec):
+    return [bi for bi, t in b.calls() if mir.cname(callee_name(t)) in _LEN_CALLS and t['args'] and _ref_root(b, t['args'][0]) == vec]
+
+
+def _is_len_call_on(b, sw, vec):
+    op = b.blocks[sw]['term']['discr']
+    if op.get('k') not in ('copy', 'move') or op['place']['proj']:
+        return False
+    loc = op['place']['local']
+    return any(b.blocks[bi]['term'].get('dest', {}).get('local') == loc for bi in _len_call_blocks(b, vec))
+
+
+def _len_feeds(b, sw, vec):
+    """the comparison switched on in sw reads a len() call on vec"""
+    op = b.blocks[sw]['term']['discr']
+    if op.get('k') not in ('copy', 'move') or op['place']['proj']:
+        return False
+    dests = {b.blocks[bi]['term']['dest']['local'] for bi in _len_call_blocks(b, vec)}
+    for d in b.defs().get(op['place']['local'], []):
+        if d[0] == 'st' and d[3]['rv'].get('k') == 'bin':
+            for side in ('a', 'b'):
+                o = d[3]['rv'][side]
+                if o.get('k') in ('copy', 'move') and not o['place']['proj'] and o['place']['local'] in dests:
+                    return True
+    return False
+
+
+def lengths_reaching(b, vec, site):
+    """The set of possible lengths of Vec local `vec` on entry to block `site`, when every path to it passes one test of
+    vec.len() (the last such test before the site is taken): for each edge of that test the length it establishes, plus one
+    for every push on the way; None when some path carries an unknown length (the `otherwise` edge of the test reaches the
+    site, the vector is changed by anything but push, or a loop changes it)."""
+    cands = [(sw, e) for sw, e in len_switches(b, vec) if sw != site and b.dominates(sw, site)]
+    if not cands:
+        return None
+    cands.sort(key=lambda x: sum(1 for o in cands if b.dominates(o[0], x[0])))
+    sw, edges = cands[-1]
+    # the length was measured when the switch ran: nothing may change the vector between the len() call and the switch
+    out = set()
+    seen = {}
+    work = [(tg, key) for key, tg in edges.items() if tg is not None]
+    while work:
+        blk, ln = work.pop()
+        if blk == site:
+            if ln == 'otherwise':
+                return None
+            out.add(ln)
+            continue
+        if not b.reaches(blk, site):
+            continue
+        if blk in seen:
+            if seen[blk] != ln:
+                return None
+            continue
+        seen[blk] = ln
+        t = b.blocks[blk]['term']
+        if t['k'] == 'call' and t['args'] and _ref_root(b, t['args'][0]) == vec:
+            n = mir.cname(callee_name(t))
+            if n in _GROW_BY_ONE:
+                ln = ln + 1 if isinstance(ln, int) else ln
+            elif n not in _LEN_CALLS and n not in ('Vec::is_empty', 'Vec::iter', 'slice::iter', 'Deref::deref', 'Vec::as_slice', 'Index::index'):
+                # resize(n, ..) sets the length, anything else is unknown
+                if n == 'Vec::resize' and isinstance(const_val(strip(b.op_term(t['args'][1], (blk, None)))), int):
+                    ln = const_val(strip(b.op_term(t['args'][1], (blk, None))))
+                elif n in ('TryInto::try_into', 'TryFrom::try_from', 'IntoIterator::into_iter'):
+                    pass
+                else:
+                    return None
+        for nx in b.succ(blk):
+            if not b.blocks[nx].get('cleanup'):
+                work.append((nx, ln))
+    return out
